@@ -955,6 +955,11 @@ class Executor:
             return Tup([])
         if c.startswith("(") and c.endswith(")") and "," in c:
             return Tup([self.const(x.strip()) for x in split_top(c[1:-1])])
+        m = re.match(r"^(?:core::|std::)?f(32|64)::(?:<impl f(?:32|64)>::)?(MAX_10_EXP|MIN_10_EXP|MAX_EXP|MIN_EXP|DIGITS|MANTISSA_DIGITS|RADIX)$", c)
+        if m:
+            table = {"32": {"MAX_10_EXP": 38, "MIN_10_EXP": -37, "MAX_EXP": 128, "MIN_EXP": -125, "DIGITS": 6, "MANTISSA_DIGITS": 24, "RADIX": 2},
+                     "64": {"MAX_10_EXP": 308, "MIN_10_EXP": -307, "MAX_EXP": 1024, "MIN_EXP": -1021, "DIGITS": 15, "MANTISSA_DIGITS": 53, "RADIX": 2}}
+            return z3.IntVal(table[m.group(1)][m.group(2)])
         m = re.match(r"^(i32|u32|usize|i64|u64|isize|u8)::(MIN|MAX)$", c)
         if m:
             lo, hi = INT_RANGES[m.group(1)]
